@@ -1,9 +1,10 @@
 # C12 — the server applies exactly the filter and options the user specified.
-import re
-from lib import vf
+import os, re, subprocess
+from lib import vf, srv
 
 ID = "C12"
 PROP_FILE = "Props/C12.v"
+EXTRA_BINS = ("dgrep",)
 CONSTS = ["protocol_compat", "max_before_context"]
 RULE = ("real client constructors (grep/cat/tail) -> makeCommands -> SendMessage bytes -> real ServerHandler.Write up to the "
         "command callback (+ regex.Deserialize as readCommand.Start does): hostile patterns (blanks anywhere, ':;,%=', "
@@ -45,12 +46,37 @@ def generate(rng, tier):
         cases.append({"tool": "map", "regex": b"".hex(), "query": rng.choice(queries).encode().hex(), "invert": False,
                       "before": 0, "after": 0, "max": 0, "plain": rng.random() < 0.5, "quiet": rng.random() < 0.5,
                       "files": files.encode().hex()})
+    # black box, serverless: the same filter on a named file, on a pipe and on a redirected standard input
+    for rx, inv in [("ERROR", False), ("ERROR", True), ("o 4", False), ("^b", True)]:
+        for via in ("file", "pipe", "redirect"):
+            cases.append({"stdin": via, "rx": rx, "inv": inv})
     return cases
 
 
+STDIN_LINES = ["a ERROR 1", "b info 2", "c ERROR 3", "b info 4", "e warn 5", "f ERROR 6"]
+
+
+def _stdin_case(env, c):
+    path = os.path.join(env.dir, "stdin_case.log")
+    data = "".join(l + "\n" for l in STDIN_LINES).encode()
+    open(path, "wb").write(data)
+    cmd = [os.path.join(srv.BIN, "dgrep"), "--cfg", "none", "--plain", "--logLevel", "error", "--regex", c["rx"]] + (["--invert"] if c["inv"] else [])
+    if c["stdin"] == "file":
+        p = subprocess.run(cmd + ["--files", path], stdin=subprocess.DEVNULL, capture_output=True, env=env.client_env(), cwd=env.dir, timeout=60)
+    elif c["stdin"] == "pipe":
+        p = subprocess.run(cmd, input=data, capture_output=True, env=env.client_env(), cwd=env.dir, timeout=60)
+    else:
+        with open(path, "rb") as f:
+            p = subprocess.run(cmd, stdin=f, capture_output=True, env=env.client_env(), cwd=env.dir, timeout=60)
+    return {"rc": p.returncode, "out": p.stdout.decode("latin1")}
+
+
 def run_impl(cases, tier):
-    res, infos = vf.harness_parallel("codec", cases)
-    return res
+    real = [c for c in cases if "stdin" not in c]
+    res, infos = vf.harness_parallel("codec", real)
+    it = iter(res)
+    env = srv.Env()
+    return [_stdin_case(env, c) if "stdin" in c else next(it) for c in cases]
 
 
 NOOP = {b"", b".", b".*"}
@@ -72,6 +98,12 @@ def judge(cases, obs, tier):
     oracle, model, errors = {}, {}, []
     terms, idx = [], []
     for i, (c, o) in enumerate(zip(cases, obs)):
+        if "stdin" in c:
+            want = [l for l in STDIN_LINES if (re.search(c["rx"], l) is not None) != c["inv"]]
+            got = [l for l in o["out"].split("\n") if l]
+            if got != want:
+                oracle[i] = "serverless dgrep --regex %r%s reading from a %s: selected %r, the filter selects %r" % (c["rx"], " --invert" if c["inv"] else "", c["stdin"], got, want)
+            continue
         if o is None or "panic" in o or "error" in o:
             oracle[i] = "implementation failed: %s" % (o,)
             continue
@@ -172,11 +204,15 @@ def _read_obs(d):
 
 
 def nontrivial(c):
+    if "stdin" in c:
+        return True
     p = bytes.fromhex(c["regex"])
     return any(ch in p for ch in b" ;:,%=") or c["before"] or c["after"] or c["max"] or c["invert"] or c["plain"]
 
 
 def sample(c, o):
+    if "stdin" in c:
+        return {"stdin": c["stdin"], "regex": c["rx"], "invert": c["inv"], "out": (o or {}).get("out")}
     return {"tool": c["tool"], "regex": bytes.fromhex(c["regex"]).decode("utf-8", "replace"), "invert": c["invert"],
             "before": c["before"], "after": c["after"], "max": c["max"], "plain": c["plain"], "quiet": c["quiet"],
             "files": bytes.fromhex(c["files"]).decode("utf-8", "replace"),
